@@ -1,6 +1,6 @@
 """translator items: src/cli/src (keyring.rs, main.rs, commands.rs), src/ffi/src/lib.rs, Cargo.lock"""
 import os, re
-from rustlite import ExtractError, Lin, split_top, bytes_of_str, OPEN
+from rustlite import ExtractError, FatalExtract, Lin, split_top, bytes_of_str, OPEN
 from xt_common import (slice_bounds, tok0, base_canon, need, arg, zero_fill_size, where_of, named_let_fill, named_const_int, named_const_bytes,
                        bytes_value, if_conditions, comparisons, len_comparand, RoleCtx, Roles, Texts, Words, OptTable,
                        CMP_FLIP)
@@ -27,9 +27,19 @@ def const_slice(F, o, item, size=None):
     return lo.c, hi.c
 
 
-def keyring_items(S):
+def nonce_of(F, call, it, nm):
+    def role():
+        o = call.origin(1)
+        return zero_fill_size(F, o, it), where_of(F, o)
+    return (("role:nonce argument of %s in %s" % (call.path[-1], F.fn.name), role),
+            ("name:let nonce = [0u8; N]", lambda: named_let_fill(F, "nonce", it)))
+
+
+COST_NAMES = ("SCRYPT_N", "SCRYPT_R", "SCRYPT_P")
+
+
+def lock_key_items(S):
     K = S.cli
-    # ================= lock_private_key
     item = "keyring.rs:lock_private_key"
     FL = S.fn(K, "lock_private_key", item)
     need(len(FL.fn.params) == 3, item + ":signature changed")
@@ -41,43 +51,41 @@ def keyring_items(S):
     def version_role():
         o = enc.origin(3)
         return bytes_value(FL, o, item + ":aad"), where_of(FL, o)
-    version = S.item("kr_private_key_version", ("role:aad argument of chapoly_encrypt_ietf in lock_private_key", version_role),
-                     ("name:const PRIVATE_KEY_VERSION", lambda: named_const_bytes(S, K, "PRIVATE_KEY_VERSION", "keyring.rs:PRIVATE_KEY_VERSION")))
-    names = ("SCRYPT_N", "SCRYPT_R", "SCRYPT_P")
-    costs = []
+    S.try_item("kr_private_key_version", ("role:aad argument of chapoly_encrypt_ietf in lock_private_key", version_role),
+               ("name:const PRIVATE_KEY_VERSION", lambda: named_const_bytes(S, K, "PRIVATE_KEY_VERSION", "keyring.rs:PRIVATE_KEY_VERSION")))
     for k in range(3):
         def th(k=k):
             o = sc.origin(2 + k)
             return sc.const(2 + k, item + ":scrypt cost"), where_of(FL, o)
-        costs.append(S.item("kr_" + names[k].lower(), ("role:cost arguments of scrypt in lock_private_key", th),
-                            ("name:const " + names[k], lambda k=k: named_const_int(S, K, names[k], "keyring.rs:" + names[k]))))
+        S.try_item("kr_" + COST_NAMES[k].lower(), ("role:cost arguments of scrypt in lock_private_key", th),
+                   ("name:const " + COST_NAMES[k], lambda k=k: named_const_int(S, K, COST_NAMES[k], "keyring.rs:" + COST_NAMES[k])))
     w = sc.where()
     pat = "role:scrypt call of lock_private_key"
-    S.put("kr_lock_scrypt_args_const", 1 if all(sc.is_const_expr(2 + k) for k in range(3)) else 0, pat, w)
-    S.put("kr_lock_scrypt_len", sc.const(5, item + ":scrypt len"), pat, w)
-
-    def nonce_of(F, call, it, nm):
-        def role():
-            o = call.origin(1)
-            return zero_fill_size(F, o, it), where_of(F, o)
-        return (("role:nonce argument of %s in %s" % (call.path[-1], F.fn.name), role),
-                ("name:let nonce = [0u8; N]", lambda: named_let_fill(F, "nonce", it)))
-    S.item("kr_lock_nonce_len", *nonce_of(FL, enc, item + ":nonce", "nonce"))
-    known = {tuple(version): "RVersion"}
+    with S.section(item + ":scrypt call"):
+        S.put("kr_lock_scrypt_args_const", 1 if all(sc.is_const_expr(2 + k) for k in range(3)) else 0, pat, w)
+        S.put("kr_lock_scrypt_len", sc.const(5, item + ":scrypt len"), pat, w)
+    S.try_item("kr_lock_nonce_len", *nonce_of(FL, enc, item + ":nonce", "nonce"))
+    with S.section(item + ":salt type"):
+        (nm, ta, tb) = FL.fn.params[2]
+        need(FL.T[ta].s == "[" and FL.m[ta] == tb - 1, item + ":salt parameter is not an array")
+        parts = split_top(FL.f, ta + 1, tb - 1, sep=";")
+        need(len(parts) == 2, item + ":salt type")
+        S.put("kr_lock_salt_len", FL.const(parts[1][0], parts[1][1], item), "role:type [u8; N] of the salt parameter of lock_private_key", FL.where(ta))
+    known = {tuple(S.val("kr_private_key_version")): "RVersion"}
     RL = RoleCtx(S, FL, ["RPrivateKey", "RPassword", "RSalt"], item, known_bytes=known,
                  callroles={"chapoly_encrypt_ietf": "RCiphertext"})
-    S.put("kr_lock_scrypt_roles", RL.roles_of_call(sc, 6), pat, w)
-    S.put("kr_lock_aead_roles", RL.roles_of_call(enc, 4), "role:chapoly_encrypt_ietf call of lock_private_key", enc.where())
-    ext = FL.mcalls("extend_from_slice")
-    need(len(ext) == 3, "%s:%d extend_from_slice calls, expected 3" % (item, len(ext)))
-    S.put("kr_lock_layout_roles", Roles(RL.of_arg(c, 0) for c in ext), "role:extend_from_slice calls of lock_private_key in order", ext[0].where())
-    (nm, ta, tb) = FL.fn.params[2]
-    need(FL.T[ta].s == "[" and FL.m[ta] == tb - 1, item + ":salt parameter is not an array")
-    parts = split_top(FL.f, ta + 1, tb - 1, sep=";")
-    need(len(parts) == 2, item + ":salt type")
-    S.put("kr_lock_salt_len", FL.const(parts[1][0], parts[1][1], item), "role:type [u8; N] of the salt parameter of lock_private_key", FL.where(ta))
+    with S.section(item + ":scrypt roles"):
+        S.put("kr_lock_scrypt_roles", RL.roles_of_call(sc, 6), pat, w)
+    with S.section(item + ":aead roles"):
+        S.put("kr_lock_aead_roles", RL.roles_of_call(enc, 4), "role:chapoly_encrypt_ietf call of lock_private_key", enc.where())
+    with S.section(item + ":layout"):
+        ext = FL.mcalls("extend_from_slice")
+        need(len(ext) == 3, "%s:%d extend_from_slice calls, expected 3" % (item, len(ext)))
+        S.put("kr_lock_layout_roles", Roles(RL.of_arg(c, 0) for c in ext), "role:extend_from_slice calls of lock_private_key in order", ext[0].where())
 
-    # ================= unlock_private_key
+
+def unlock_key_items(S):
+    K = S.cli
     item = "keyring.rs:unlock_private_key"
     FU = S.fn(K, "unlock_private_key", item)
     need(len(FU.fn.params) == 2, item + ":signature changed")
@@ -89,14 +97,17 @@ def keyring_items(S):
     def ct_len_role():
         (op, c, i), _ = first_len_cmp(FU, ("!=",), item + ":length test")
         return c, i
-    ctlen = S.item("kr_private_key_ct_len", ("role:`<key bytes>.len() != N` of unlock_private_key", ct_len_role),
-                   ("name:const PRIVATE_KEY_CT_LEN", lambda: named_const_int(S, K, "PRIVATE_KEY_CT_LEN", "keyring.rs:PRIVATE_KEY_CT_LEN")))
+    S.try_item("kr_private_key_ct_len", ("role:`<key bytes>.len() != N` of unlock_private_key", ct_len_role),
+               ("name:const PRIVATE_KEY_CT_LEN", lambda: named_const_int(S, K, "PRIVATE_KEY_CT_LEN", "keyring.rs:PRIVATE_KEY_CT_LEN")))
     w = sc.where()
     pat = "role:scrypt call of unlock_private_key"
-    ok = all(sc.is_const_expr(2 + k) and sc.const(2 + k, item) == costs[k] for k in range(3))
-    S.put("kr_unlock_scrypt_args_const", 1 if ok else 0, pat, w)
-    S.put("kr_unlock_scrypt_len", sc.const(5, item + ":scrypt len"), pat, w)
-    S.item("kr_unlock_nonce_len", *nonce_of(FU, dec, item + ":nonce", "nonce"))
+    with S.section(item + ":scrypt call"):
+        costs = [S.val("kr_" + n.lower()) for n in COST_NAMES]
+        ok = all(sc.is_const_expr(2 + k) and sc.const(2 + k, item) == costs[k] for k in range(3))
+        S.put("kr_unlock_scrypt_args_const", 1 if ok else 0, pat, w)
+        S.put("kr_unlock_scrypt_len", sc.const(5, item + ":scrypt len"), pat, w)
+    S.try_item("kr_unlock_nonce_len", *nonce_of(FU, dec, item + ":nonce", "nonce"))
+    ctlen = S.val("kr_private_key_ct_len")
 
     def slices_role():
         ov = dec.origin(3)
@@ -125,13 +136,15 @@ def keyring_items(S):
             d[keys[0]], d[keys[1]] = lo, hi
             w = LL[-1].where()
         return d, w
-    sl = S.group(["kr_unlock_version_lo", "kr_unlock_version_end", "kr_unlock_salt_lo", "kr_unlock_salt_hi", "kr_unlock_ct_lo",
-                  "kr_unlock_ct_hi"],
-                 ("role:slices given as aad / salt / ciphertext to chapoly_decrypt_ietf and scrypt in unlock_private_key", slices_role),
-                 ("name:let version_aad / salt / ciphertext = &key_bytes[a..b]", slices_name))
-    smap = {(sl["kr_unlock_version_lo"], sl["kr_unlock_version_end"]): "RVersion",
-            (sl["kr_unlock_salt_lo"], sl["kr_unlock_salt_hi"]): "RSalt",
-            (sl["kr_unlock_ct_lo"], sl["kr_unlock_ct_hi"]): "RCiphertext"}
+    S.try_group(["kr_unlock_version_lo", "kr_unlock_version_end", "kr_unlock_salt_lo", "kr_unlock_salt_hi", "kr_unlock_ct_lo",
+                 "kr_unlock_ct_hi"],
+                ("role:slices given as aad / salt / ciphertext to chapoly_decrypt_ietf and scrypt in unlock_private_key", slices_role),
+                ("name:let version_aad / salt / ciphertext = &key_bytes[a..b]", slices_name))
+    smap = {(S.val("kr_unlock_version_lo"), S.val("kr_unlock_version_end")): "RVersion",
+            (S.val("kr_unlock_salt_lo"), S.val("kr_unlock_salt_hi")): "RSalt",
+            (S.val("kr_unlock_ct_lo"), S.val("kr_unlock_ct_hi")): "RCiphertext"}
+    version = S.val("kr_private_key_version")
+    known = {tuple(version): "RVersion"}
 
     class RU_(RoleCtx):
         def of_origin(self, o):
@@ -144,22 +157,33 @@ def keyring_items(S):
                     pass
             return RoleCtx.of_origin(self, o)
     RU = RU_(S, FU, ["RLocked", "RPassword"], item, known_bytes=known)
-    S.put("kr_unlock_scrypt_roles", RU.roles_of_call(sc, 6), pat, w)
-    S.put("kr_unlock_aead_roles", RU.roles_of_call(dec, 4), "role:chapoly_decrypt_ietf call of unlock_private_key", dec.where())
-    # version test:  <version slice> != <the version constant>
-    chk = 0
-    for cond in if_conditions(FU):
-        X = cond[4]
-        cmps, conn = comparisons(X, cond[0], cond[1])
-        if len(cmps) == 1 and cmps[0][1] == "!=":
-            (l, op, r) = cmps[0]
-            for (x, y) in ((l, r), (r, l)):
-                try:
-                    if RU.of(x[0], x[1], X) == "RVersion" and bytes_value(FU, X.origin(*y), item) == version:
-                        chk = 1
-                except ExtractError:
-                    pass
-    S.put("kr_unlock_version_checked", chk, "role:`if <version slice> != <version constant>` of unlock_private_key", dec.where())
+    with S.section(item + ":scrypt roles"):
+        S.put("kr_unlock_scrypt_roles", RU.roles_of_call(sc, 6), pat, w)
+    with S.section(item + ":aead roles"):
+        S.put("kr_unlock_aead_roles", RU.roles_of_call(dec, 4), "role:chapoly_decrypt_ietf call of unlock_private_key", dec.where())
+    with S.section(item + ":version test"):
+        # version test:  <version slice> != <the version constant>
+        chk = 0
+        for cond in if_conditions(FU):
+            X = cond[4]
+            cmps, conn = comparisons(X, cond[0], cond[1])
+            if len(cmps) == 1 and cmps[0][1] == "!=":
+                (l, op, r) = cmps[0]
+                for (x, y) in ((l, r), (r, l)):
+                    try:
+                        if RU.of(x[0], x[1], X) == "RVersion" and bytes_value(FU, X.origin(*y), item) == version:
+                            chk = 1
+                    except ExtractError:
+                        pass
+        S.put("kr_unlock_version_checked", chk, "role:`if <version slice> != <version constant>` of unlock_private_key", dec.where())
+
+
+def keyring_items(S):
+    K = S.cli
+    with S.section("keyring.rs:lock_private_key"):
+        lock_key_items(S)
+    with S.section("keyring.rs:unlock_private_key"):
+        unlock_key_items(S)
 
     # ================= EncodedPk / EncodedSk :: try_from
     def try_len(ty):
@@ -169,8 +193,8 @@ def keyring_items(S):
             (op, c, i), _ = first_len_cmp(F, ("!=",), it)
             return c, i
         return th
-    S.item("kr_encoded_pk_try_len", ("role:`<decoded>.len() != N` of EncodedPk::try_from", try_len("EncodedPk")))
-    S.item("kr_encoded_sk_try_len", ("role:`<decoded>.len() != N` of EncodedSk::try_from", try_len("EncodedSk")))
+    S.try_item("kr_encoded_pk_try_len", ("role:`<decoded>.len() != N` of EncodedPk::try_from", try_len("EncodedPk")))
+    S.try_item("kr_encoded_sk_try_len", ("role:`<decoded>.len() != N` of EncodedSk::try_from", try_len("EncodedSk")))
 
     # ================= decode_public_key
     item = "keyring.rs:decode_public_key"
@@ -179,7 +203,7 @@ def keyring_items(S):
     def pk_len_role():
         (op, c, i), _ = first_len_cmp(FD, ("<", "<="), item + ":length test")
         return c + (1 if op == "<=" else 0), i
-    S.item("kr_public_key_len", ("role:`<decoded>.len() < N` of decode_public_key", pk_len_role),
+    S.try_item("kr_public_key_len", ("role:`<decoded>.len() < N` of decode_public_key", pk_len_role),
            ("name:const PUBLIC_KEY_LEN", lambda: named_const_int(S, K, "PUBLIC_KEY_LEN", "keyring.rs:PUBLIC_KEY_LEN")))
 
     def decode_role():
@@ -220,7 +244,7 @@ def keyring_items(S):
                 d[key] = o.ctx.const(o.hi[0], o.hi[1], item)
         d["kr_decode_hash_of_pk"] = 0
         return d, {"file": FD.f.rel, "line": FD.fn.line}
-    S.group(["kr_decode_pk_end", "kr_decode_ck_start", "kr_checksum_len", "kr_decode_hash_of_pk"],
+    S.try_group(["kr_decode_pk_end", "kr_decode_ck_start", "kr_checksum_len", "kr_decode_hash_of_pk"],
             ("role:slice given to PublicKey::try_from and the two sides of the checksum comparison in decode_public_key", decode_role),
             ("name:let pk / checksum / exp_checksum", decode_name))
 
@@ -256,7 +280,7 @@ def keyring_items(S):
     def encode_name():
         n, w = named_let_fill(FE, "encoded", item)
         raise ExtractError("%s:buffer found by name (%d bytes) but not its layout" % (item, n))
-    S.group(["kr_encoded_pk_len", "kr_encode_pk_end", "kr_encode_ck_start", "kr_encode_ck_len", "kr_encode_hash_of_pk"],
+    S.try_group(["kr_encoded_pk_len", "kr_encode_pk_end", "kr_encode_ck_start", "kr_encode_ck_len", "kr_encode_hash_of_pk"],
             ("role:buffer given to Base64::encode_to_string in encode_public_key and the copies into it", encode_role),
             ("name:let mut encoded", encode_name))
 
@@ -267,7 +291,7 @@ def keyring_items(S):
     def name_max_role():
         (op, c, i), cond = first_len_cmp(FV, (">", ">="), item + ":length test", lambda s: s == "p0 . len ( )")
         return c - (1 if op == ">=" else 0), i
-    S.item("kr_max_name_size", ("role:`<name>.len() > N` of valid_key_name", name_max_role),
+    S.try_item("kr_max_name_size", ("role:`<name>.len() > N` of valid_key_name", name_max_role),
            ("name:const MAX_NAME_SIZE", lambda: named_const_int(S, K, "MAX_NAME_SIZE", "keyring.rs:MAX_NAME_SIZE")))
 
     def name_chars():
@@ -278,7 +302,7 @@ def keyring_items(S):
         emp = [c for c in FV.mcalls("is_empty") if c.recv_origin().kind == "param"]
         d = {"kr_name_forbidden_char": tok0(cs[0], 0).v, "kr_name_empty_rejected": 1 if emp else 0}
         return d, cs[0].where()
-    S.group(["kr_name_forbidden_char", "kr_name_empty_rejected"], ("role:contains(<char>) / is_empty() tests of valid_key_name", name_chars))
+    S.try_group(["kr_name_forbidden_char", "kr_name_empty_rejected"], ("role:contains(<char>) / is_empty() tests of valid_key_name", name_chars))
 
     # ================= parse_config / serialize_key: keywords
     item = "keyring.rs:parse_config"
@@ -313,7 +337,7 @@ def keyring_items(S):
              "kr_comment_char": chars[0][0], "kr_split_chars": spl, "kr_strip_char": ch[0].v,
              "kr_trim_calls": len(FP.mcalls("trim")), "kr_lines_calls": len(FP.mcalls("lines"))}
         return d, strs[0][1].where()
-    S.group(["kr_kw_hdr", "kr_kw_name", "kr_kw_pub", "kr_kw_priv", "kr_comment_char", "kr_split_chars", "kr_strip_char",
+    S.try_group(["kr_kw_hdr", "kr_kw_name", "kr_kw_pub", "kr_kw_priv", "kr_comment_char", "kr_split_chars", "kr_strip_char",
              "kr_trim_calls", "kr_lines_calls"],
             ("role:starts_with / split_once / retain tests of parse_config in order", keywords))
 
@@ -327,7 +351,7 @@ def keyring_items(S):
         R = RoleCtx(S, F, [("RParam", 0), ("RParam", 1), ("RParam", 2)], it)
         order = Roles(R.of_arg(fm[0], i) for i in range(1, len(fm[0].args)))
         return {"kr_serialize_fmt": list(o.value), "kr_serialize_args": order}, fm[0].where()
-    S.group(["kr_serialize_fmt", "kr_serialize_args"], ("role:format! call of serialize_key", ser_fmt))
+    S.try_group(["kr_serialize_fmt", "kr_serialize_args"], ("role:format! call of serialize_key", ser_fmt))
 
     # ================= base64 use (whole CLI crate)
     def b64():
@@ -361,7 +385,7 @@ def keyring_items(S):
         d = {"kr_b64_codec_is_original": 1 if (orig and uses) else 0, "kr_b64_ignore_is_none": none,
              "kr_b64_decode_calls": dec_n, "kr_b64_encode_calls": enc_n}
         return d, w
-    S.group(["kr_b64_codec_is_original", "kr_b64_ignore_is_none", "kr_b64_decode_calls", "kr_b64_encode_calls"],
+    S.try_group(["kr_b64_codec_is_original", "kr_b64_ignore_is_none", "kr_b64_decode_calls", "kr_b64_encode_calls"],
             ("role:every ct_codecs call of the CLI crate", b64))
 
 
@@ -440,19 +464,20 @@ def opt_tables(F, item):
 def main_items(S):
     K = S.cli
     item = "main.rs:main"
-    F = S.fn(K, "main", item)
 
     def exit_code():
+        F = S.fn(K, "main", item)
         cs = F.calls("exit")
         need(len(cs) == 1 and len(cs[0].args) == 1, item + ":process::exit call")
         return cs[0].const(0, item), cs[0].where()
-    S.item("cli_exit_err", ("role:std::process::exit(N) of main", exit_code))
+    S.try_item("cli_exit_err", ("role:std::process::exit(N) of main", exit_code))
 
     item = "main.rs:try_main"
     FT = S.fn(K, "try_main", item)
-    arms, w = match_arms(FT, r"^\w+ \[ 1 \]$", item)
-    S.put("cli_cmd_words", Words(a for a in arms if a), "role:string patterns of `match args[1]` in try_main", w)
-    S.put("cli_cmd_has_default_arm", 1 if arms and arms[-1] == [] else 0, "role:last arm of `match args[1]` is `_`", w)
+    with S.section(item + ":command words"):
+        arms, w = match_arms(FT, r"^\w+ \[ 1 \]$", item)
+        S.put("cli_cmd_words", Words(a for a in arms if a), "role:string patterns of `match args[1]` in try_main", w)
+        S.put("cli_cmd_has_default_arm", 1 if arms and arms[-1] == [] else 0, "role:last arm of `match args[1]` is `_`", w)
 
     def help_test():
         for cond in if_conditions(FT):
@@ -478,38 +503,52 @@ def main_items(S):
                 need(len(r) == 1 and conn == ["||"], item + ":help test is not `len <= N || contains.. || contains..`")
                 return {"cli_help_flags": flags, "cli_help_argc_max": r[0]}, cs[0].where()
         raise ExtractError(item + ":help test")
-    S.group(["cli_help_flags", "cli_help_argc_max"], ("role:`if args.len() <= N || args.contains(..)` of try_main", help_test))
+    S.try_group(["cli_help_flags", "cli_help_argc_max"], ("role:`if args.len() <= N || args.contains(..)` of try_main", help_test))
 
     def slice_idx(F, it):
         cs = F.calls("slice_args")
         need(cs, it + ":no slice_args call")
         return [c.const(1, it) for c in cs], cs[0].where()
-    S.item("cli_dispatch_slice_idx", ("role:index argument of the slice_args calls of try_main", lambda: slice_idx(FT, item)))
+    S.try_item("cli_dispatch_slice_idx", ("role:index argument of the slice_args calls of try_main", lambda: slice_idx(FT, item)))
 
     item = "main.rs:parse_key"
-    FK = S.fn(K, "parse_key", item)
-    arms, w = match_arms(FK, r"^\w+ \[ 0 \]$", item)
-    S.put("cli_key_words", Words(a for a in arms if a), "role:string patterns of `match args[0]` in parse_key", w)
-    S.item("cli_key_slice_idx", ("role:index argument of the slice_args calls of parse_key", lambda: slice_idx(FK, item)))
-    tabs = opt_tables(FK, item)
-    need(len(tabs) == 3, "%s:%d Options objects, expected 3" % (item, len(tabs)))
-    lo = [t["long_only"] for t in tabs]
-    for (nm, t) in zip(("cli_gen_opts", "cli_change_opts", "cli_extract_opts"), tabs):
-        S.put(nm, t["table"], "role:reqopt/optopt/optflag calls on the Options objects of parse_key, in order", t["let"].where())
+    lo = []
+    lo_ok = True
+    with S.section(item):
+        FK = S.fn(K, "parse_key", item)
+        with S.section(item + ":command words"):
+            arms, w = match_arms(FK, r"^\w+ \[ 0 \]$", item)
+            S.put("cli_key_words", Words(a for a in arms if a), "role:string patterns of `match args[0]` in parse_key", w)
+        S.try_item("cli_key_slice_idx", ("role:index argument of the slice_args calls of parse_key", lambda: slice_idx(FK, item)))
+        lo_ok = False
+        tabs = opt_tables(FK, item)
+        need(len(tabs) == 3, "%s:%d Options objects, expected 3" % (item, len(tabs)))
+        lo += [t["long_only"] for t in tabs]
+        for (nm, t) in zip(("cli_gen_opts", "cli_change_opts", "cli_extract_opts"), tabs):
+            S.put(nm, t["table"], "role:reqopt/optopt/optflag calls on the Options objects of parse_key, in order", t["let"].where())
+        lo_ok = True
     item = "main.rs:parse_password"
-    FP = S.fn(K, "parse_password", item)
-    arms, w = match_arms(FP, r"^\w+ \[ 0 \]$", item)
-    S.put("cli_pass_words", Words(a for a in arms if a), "role:string patterns of `match args[0]` in parse_password", w)
-    S.item("cli_pass_slice_idx", ("role:index argument of the slice_args calls of parse_password", lambda: slice_idx(FP, item)))
+    with S.section(item):
+        FP = S.fn(K, "parse_password", item)
+        with S.section(item + ":command words"):
+            arms, w = match_arms(FP, r"^\w+ \[ 0 \]$", item)
+            S.put("cli_pass_words", Words(a for a in arms if a), "role:string patterns of `match args[0]` in parse_password", w)
+        S.try_item("cli_pass_slice_idx", ("role:index argument of the slice_args calls of parse_password", lambda: slice_idx(FP, item)))
     for (fn, nm) in (("parse_encrypt", "cli_encrypt_opts"), ("parse_decrypt", "cli_decrypt_opts"),
                      ("parse_pass_encrypt", "cli_pass_encrypt_opts"), ("parse_pass_decrypt", "cli_pass_decrypt_opts")):
         it = "main.rs:" + fn
-        Fx = S.fn(K, fn, it)
-        tabs = opt_tables(Fx, it)
-        need(len(tabs) == 1, "%s:%d Options objects, expected 1" % (it, len(tabs)))
-        lo.append(tabs[0]["long_only"])
-        S.put(nm, tabs[0]["table"], "role:reqopt/optopt/optflag calls on the Options object of %s, in order" % fn, tabs[0]["let"].where())
-    S.put("cli_long_only_all", 1 if all(lo) else 0, "role:every Options object gets long_only(true)", {"file": FK.f.rel, "line": FK.fn.line})
+        ok1 = False
+        with S.section(it):
+            Fx = S.fn(K, fn, it)
+            tabs = opt_tables(Fx, it)
+            need(len(tabs) == 1, "%s:%d Options objects, expected 1" % (it, len(tabs)))
+            lo.append(tabs[0]["long_only"])
+            S.put(nm, tabs[0]["table"], "role:reqopt/optopt/optflag calls on the Options object of %s, in order" % fn, tabs[0]["let"].where())
+            ok1 = True
+        lo_ok = lo_ok and ok1
+    with S.section("main.rs:long_only"):
+        need(lo_ok, "main.rs:not every Options object was located")
+        S.put("cli_long_only_all", 1 if all(lo) else 0, "role:every Options object gets long_only(true)", {"file": "src/cli/src/main.rs", "line": None})
 
     # usage messages: Err("...".to_string())
     def usage_msgs():
@@ -529,7 +568,7 @@ def main_items(S):
                         w = w or X.where(a)
         need(found, "main.rs:no usage message found")
         return Texts(list(x) for x in sorted(found)), w
-    S.item("cli_usage_msgs", ("role:distinct literals of Err(\"..\".to_string()) in the parse_ functions, sorted", usage_msgs))
+    S.try_item("cli_usage_msgs", ("role:distinct literals of Err(\"..\".to_string()) in the parse_ functions, sorted", usage_msgs))
 
     def usage_fmt():
         it = "main.rs:print_usage_error"
@@ -539,7 +578,7 @@ def main_items(S):
         o0, o2 = cs[0].origin(0), cs[0].origin(2)
         need(o0.kind == "str" and o2.kind == "str", it + ":strings")
         return {"cli_usage_fmt": list(o0.value), "cli_usage_hint": list(o2.value)}, cs[0].where()
-    S.group(["cli_usage_fmt", "cli_usage_hint"], ("role:anyhow!(fmt, msg, hint) of print_usage_error", usage_fmt))
+    S.try_group(["cli_usage_fmt", "cli_usage_hint"], ("role:anyhow!(fmt, msg, hint) of print_usage_error", usage_fmt))
 
     def from_hint():
         it = "main.rs:format_parse_decrypt_error"
@@ -559,7 +598,7 @@ def main_items(S):
                             opts.append(bytes_of_str(X.T[x[0]]))
         need(len(opts) >= 1, it + ":option names")
         return {"cli_from_hint_fmt": list(o.value), "cli_from_hint_opts": opts}, fm[0].where()
-    S.group(["cli_from_hint_fmt", "cli_from_hint_opts"], ("role:format! and the == tests of format_parse_decrypt_error", from_hint))
+    S.try_group(["cli_from_hint_fmt", "cli_from_hint_opts"], ("role:format! and the == tests of format_parse_decrypt_error", from_hint))
 
 
 def commands_items(S):
@@ -579,7 +618,7 @@ def commands_items(S):
             return {nm + "_draw": n, nm + "_len": m_}, cs[0].where()
         return th
     for (fn, nm) in (("gen_key", "cli_gen_salt"), ("change_pass", "cli_change_salt"), ("pass_encrypt", "cli_pass_salt")):
-        S.group([nm + "_draw", nm + "_len"], ("role:`let _: [u8; M] = secure_random(N)` of %s" % fn, rand_len(fn, nm)))
+        S.try_group([nm + "_draw", nm + "_len"], ("role:`let _: [u8; M] = secure_random(N)` of %s" % fn, rand_len(fn, nm)))
 
     def injects_none():
         it = "commands.rs:encrypt:key_encrypt call"
@@ -588,7 +627,7 @@ def commands_items(S):
         need(len(c.args) == 9, it + ":arity")
         ok = all(c.origin(k).kind == "none" for k in (5, 6, 7))
         return 1 if ok else 0, c.where()
-    S.item("cli_key_encrypt_injects_none", ("role:ephemeral / ephemeral_public / payload_key arguments of key_encrypt in commands::encrypt", injects_none))
+    S.try_item("cli_key_encrypt_injects_none", ("role:ephemeral / ephemeral_public / payload_key arguments of key_encrypt in commands::encrypt", injects_none))
 
     def fmt_of(fn, macro, nm, pick=0):
         def th():
@@ -615,7 +654,7 @@ def commands_items(S):
         need(len(vs) == 2, "%s:%d format! calls, expected 2" % (it, len(vs)))
         vs.sort(key=len)
         return {"cli_change_pass_fmt": vs[0], "cli_change_pass_fmt_tty": vs[1]}, F.macros("format")[0].where()
-    S.group(["cli_change_pass_fmt", "cli_change_pass_fmt_tty"], ("role:the two format! strings of change_pass (shorter = no terminal)", change_fmts))
+    S.try_group(["cli_change_pass_fmt", "cli_change_pass_fmt_tty"], ("role:the two format! strings of change_pass (shorter = no terminal)", change_fmts))
 
     def extract_fmt():
         it = "commands.rs:extract_pub:println!"
@@ -625,7 +664,7 @@ def commands_items(S):
         o = cs[0].origin(0)
         need(o.kind == "str", it)
         return list(o.value), cs[0].where()
-    S.item("cli_extract_pub_fmt", ("role:println! string of extract_pub", extract_fmt))
+    S.try_item("cli_extract_pub_fmt", ("role:println! string of extract_pub", extract_fmt))
 
     def gen_prefix():
         it = "commands.rs:gen_key:format!"
@@ -639,7 +678,7 @@ def commands_items(S):
                 w = w or c.where()
         need(len(vs) == 1, "%s:%d distinct format! strings, expected 1" % (it, len(vs)))
         return list(vs.pop()), w
-    S.item("cli_gen_append_fmt", ("role:the format! string of gen_key (key appended to an existing file / terminal)", gen_prefix))
+    S.try_item("cli_gen_append_fmt", ("role:the format! string of gen_key (key appended to an existing file / terminal)", gen_prefix))
 
 
 def ffi_items(S):
@@ -648,6 +687,11 @@ def ffi_items(S):
     w = {"file": F.f.rel, "line": F.fn.line}
     S.put("ffi_scrypt_arity", len(F.fn.params), "role:parameters of the exported scrypt", w)
     S.put("ffi_scrypt_has_return", 0 if F.fn.ra >= F.fn.rb else 1, "role:return type of the exported scrypt", w)
+    with S.section(item + ":regions and call"):
+        ffi_regions(S, F, item, w)
+
+
+def ffi_regions(S, F, item, w):
     regs = []
     reglet = {}
     for c in F.tree_calls():
@@ -678,7 +722,7 @@ def lock_items(S):
     try:
         txt = open(p, encoding="utf-8").read()
     except OSError as e:
-        raise ExtractError("file:Cargo.lock (%s)" % e)
+        raise FatalExtract("file:Cargo.lock (%s)" % e)
     lines = txt.splitlines()
     for (crate, nm) in (("ct-codecs", "dep_ct_codecs_version"), ("getopts", "dep_getopts_version")):
         vs = []
@@ -688,13 +732,13 @@ def lock_items(S):
                 if m:
                     vs.append(([int(m.group(k)) for k in (1, 2, 3)], i + 2))
         if len(vs) != 1:
-            raise ExtractError("Cargo.lock:%s (%d entries)" % (crate, len(vs)))
+            S.section_errors[nm] = "Cargo.lock:%s (%d entries)" % (crate, len(vs))
+            continue
         S.put(nm, vs[0][0], "name:[[package]] name = \"%s\" in Cargo.lock" % crate, {"file": "Cargo.lock", "line": vs[0][1]})
 
 
 def run(S):
-    keyring_items(S)
-    main_items(S)
-    commands_items(S)
-    ffi_items(S)
-    lock_items(S)
+    for (name, f) in (("keyring.rs", keyring_items), ("main.rs", main_items), ("commands.rs", commands_items),
+                      ("ffi/lib.rs", ffi_items), ("Cargo.lock", lock_items)):
+        with S.section(name):
+            f(S)
